@@ -58,6 +58,7 @@ RErr(k)  == [o |-> k, v |-> <<>>]
 RErrAny  == [o |-> "*", v |-> <<>>]          \* documented to fail, kind not documented
 RAny     == [o |-> "?", v |-> <<>>]          \* result not settled by docs/properties
 Unit     == <<>>
+AnyData  == <<999>>       \* wildcard content (no byte is 999): what a file holds between the open and the flush of a handle
 R(st, res) == [st |-> st, res |-> res, alt |-> {}, partial |-> FALSE, paired |-> FALSE]
 WithFs(st, fs) == [st EXCEPT !.fs = fs]
 
@@ -231,6 +232,24 @@ Op_chown_b(st, p, co) == LET fs == st.fs IN
        IN R(WithFs(st, [q \in DOMAIN fs |-> IF q \notin V THEN fs[q]
                                              ELSE IF co.follow /\ IsLink(fs, q) THEN Loose(fs[q]) ELSE Set(fs[q])]), ROk(Unit))
 
+\* ---- handles from write() / append() (C06 C07): visible content is constrained at flush and at drop only ----
+\* open: validation and creation as mkfile; an existing file opened for writing may be truncated now or at the first flush
+Op_h_open(st, own, p, append) == LET fs == st.fs  e == CreateErr(fs, p, "file") IN
+  IF e = "root" THEN R(st, RErrAny)
+  ELSE IF e # "-" THEN R(st, RErr(e))
+  ELSE IF ~Exists(fs, p) THEN R(WithFs(st, Put(fs, p, NFile(<<>>, own))), ROk(Unit))
+  ELSE IF append THEN R(st, ROk(Unit))
+  ELSE R(WithFs(st, [fs EXCEPT ![p].d = AnyData]), ROk(Unit))
+\* write through a handle: buffered or written through - the file's content is not settled until the next flush
+Op_h_write(st, p) == IF IsFile(st.fs, p) THEN R(WithFs(st, [st.fs EXCEPT ![p].d = AnyData]), RAny) ELSE R(st, RAny)
+\* flush / drop: when nothing else touched the tree since the open (clean) and the path still is a regular file, the file holds
+\* exactly `content` (write: the bytes written through the handle; append: what the file held at open followed by them);
+\* a stale handle (path removed / replaced / handle not alone) may fail or store what it has - but only ever into a regular file
+Op_h_sync(st, p, content, clean) ==
+  IF IsFile(st.fs, p) THEN (IF clean THEN R(WithFs(st, [st.fs EXCEPT ![p].d = content]), ROk(Unit))
+                            ELSE R(WithFs(st, [st.fs EXCEPT ![p].d = AnyData]), RAny))
+  ELSE R(st, RAny)
+
 \* ---- queries ----
 BoolV(b) == IF b THEN <<"true">> ELSE <<"false">>
 Q_exists(st, p) == BoolV(Exists(st.fs, p))
@@ -274,7 +293,7 @@ Listing(fs, p, what) ==
    ELSE {q \in base : FileIsh(fs, q)}
 
 \* ---- comparison with wildcards: tk = "?" and mode = 0 in an expected node match anything ----
-NodeEq(e, g) == /\ e.k = g.k /\ e.d = g.d /\ e.t = g.t /\ (e.tk = "?" \/ e.tk = g.tk \/ e.k # "link")
+NodeEq(e, g) == /\ e.k = g.k /\ (e.d = AnyData \/ e.d = g.d) /\ e.t = g.t /\ (e.tk = "?" \/ e.tk = g.tk \/ e.k # "link")
                 /\ (e.mode = 0 \/ e.mode = g.mode) /\ (e.uid = AnyId \/ e.uid = g.uid) /\ (e.gid = AnyId \/ e.gid = g.gid)
 \* a link's recorded kind may be the kind at creation (in-memory backend) or the kind its target has now (real filesystem)
 StEq(E, G) == /\ E.cwd = G.cwd /\ DOMAIN E.fs = DOMAIN G.fs
